@@ -63,6 +63,9 @@ def run(c):
             klass, method, _, _ = oracles.request_line(raw)
             # the no-body rule applies to requests the server could read as HEAD / OPTIONS
             nobody = klass == "wellformed" and method in ("HEAD", "OPTIONS")
+            if klass == "unspecified" and (method or "").upper() in ("HEAD", "OPTIONS"):
+                # corners the property does not speak about (lower-case version, extra spaces): with or without body is accepted
+                nobody = resp.endswith(b"\r\n\r\n")
             r = httpstrict.parse(resp, head_request=nobody)
             c.ev()
             if method in reqgen.METHODS and r.status:
